@@ -24,13 +24,15 @@ Every binary production has the shape `left : L`, `right : L - 1` (left associat
 
 Places where the relation says what the code does rather than what a SQL grammar would say (each is needed for `parse_derives`):
   DEVIATION 1 (`compute` with k = 2): `~` and `!` are members of `COMPUTE_OPERATOR_HASH` with level 2, so `_parse_compute_expression`
-      (parser.py:838-851) accepts them as BINARY operators binding tighter than `^`: `a ! b`, `a ~ b ^ c` = `(a ~ b) ^ c`.
-  DEVIATION 2 (`column`): `_parse_element_level_expression` (parser.py:776-806) never checks that the token of a column name is a
+      (parser.py:834-858, the `while` at 837) accepts them as BINARY operators binding tighter than `^`: `a ! b`, `a ~ b ^ c` = `(a ~ b) ^ c`.
+  DEVIATION 2 (`column`): `_parse_element_level_expression` (parser.py:773-806, the fall-through at 805) never checks that the token of a column name is a
       NAME: any token that is not a literal, a group, CASE or `*` is a column, reserved words included (`a + AND`).
-  DEVIATION 3 (`is_` with a NOT in front): `b NOT IS a` is accepted as `b IS NOT a` (parser.py:901, 922); after such a NOT a second
+  DEVIATION 3 (`is_` with a NOT in front): `b NOT IS a` is accepted as `b IS NOT a` (parser.py:902, 923); after such a NOT a second
       NOT behind IS is not a flag any more (`or` short-circuits) but the start of the right operand (`b NOT IS NOT` = `b IS NOT "NOT"`).
-  DEVIATION 4 (`inList`): empty segments of an IN list are dropped (`IN (1,,2)` = `IN (1,2)`), `IN ()` is accepted.
+  DEVIATION 4 (`inList`): empty segments of an IN list are dropped (`IN (1,,2)` = `IN (1,2)`), `IN ()` is accepted (parser.py:612, 724).
   DEVIATION 5 (`index`): stated for every element although the code only indexes columns and calls (weaker, shorter).
+The two OPAQUE leaves `SubQ` (sub-query) and `WinSpec` (window specification) are opened in ParseWNCov*.lean (`subQ_covered`,
+`winSpec_covered`: every expression inside them is again derived by this relation from a contiguous token run).
 -/
 open Lex
 namespace WNG
